@@ -374,11 +374,14 @@ def est_terms(case, res):
         else:
             qvars, dqvars = _var_tables(case, "qtheta", j)
         dirs = list(range(ndir))
-        if _is_extreme(case) and ndir > 3:
+        if _is_extreme(case) and ndir > 2:
             # one direction of each kind per batch element (chosen by the case, not by the outcome): the exact rational
             # model is costly at these magnitudes
             pick = (sum(_flat(case["fC"][j])) + j) % K
-            dirs = [pick, K] + ([K + 1 + (pick + 1) % K] if ndir > K + 1 else [])
+            dirs = [pick] if case.get("one_dir") else [pick, K]
+            if ndir > K + 1:   # proposal parameters: the gradient is blocked (`lqb.detach()`), i.e. exactly zero
+                if any(x != 0.0 for row in res["out"] for x in row[j][3]):
+                    dirs.append(K + 1 + (pick + 1) % K)   # not zero: let the model comparison show it
         for d in dirs:
             # direction d: theta_j[d] (d < K), phi (d == K), qtheta_j[d-K-1] (IS only)
             if d < K:
@@ -1295,12 +1298,33 @@ def _gen_exps(rng, dtype, B, n, V, lim):
     return [[[e() for _ in range(V)] for _ in range(n)] for _ in range(B)]
 
 
-def _exp_lim(rng, n, V):
+def _exp_lim(rng, n, V, kind=None):
     """octaves: 300 ~ 208 nats; a single binary variable also gets 600 (log-weights log p - log q up to ~830 nats apart, beyond
     the range of exp in float64; every is_log path works on logarithms only).  Three classes: 160 (cost of the exact model)."""
     if V != 2:
         return 160
-    return 300 // n if (n > 1 or rng.random() < 0.5) else 600
+    return 300 // n if (n > 1 or kind == "is" or rng.random() < 0.5) else 600
+
+
+def gen_is_underflow(rng):
+    """self-normalised importance sampling, two samples, whose log-weights are MORE than 745 nats apart (exp of the difference
+    underflows to 0 in float64): p ~ 1 - 2^-e against q ~ 2^-e' gives log p/q = +e' ln 2 on one outcome and -e ln 2 on the
+    other, e + e' > 1075.  The exact rational model is slow here (~5 s per term): two directions, one batch element."""
+    while True:
+        c = gen_est_extreme(rng, "is")
+        if c["n"] == 1 and c["V"] == 2:
+            break
+    c.update(B=1, M=2, self_norm=True, alias="diff", one_dir=True)
+    for key in ("theta", "fC", "fA", "fP", "cC", "cA", "cP"):
+        c[key] = c[key][:1]
+    c["qtheta"] = _gen_theta(rng, c["dtype"], 1, 1, 2)
+    wrap = (lambda e: [e]) if c["dtype"] == "bern" else (lambda e: [[e, 0]])
+    sg = rng.choice([1, -1])
+    c["pexp"] = [wrap(sg * rng.randint(540, 600))]
+    c["qexp"] = [wrap(-sg * rng.randint(540, 600))]
+    if "fexp" in c:
+        c["fexp"] = [[max(-100, min(100, e)) for e in c["fexp"][0]]]
+    return c
 
 
 def gen_est_extreme(rng, kind=None):
@@ -1330,7 +1354,7 @@ def gen_est_extreme(rng, kind=None):
     _gen_table(rng, case, "f", B, nout, K, 40, 80)
     if kind in ("direct", "is", "enum"):
         if rng.random() < 0.6:   # log-probabilities spanning hundreds of nats; |log p - log q| stays below ~420 nats
-            case["pexp"] = _gen_exps(rng, dtype, B, n, V, _exp_lim(rng, n, V))
+            case["pexp"] = _gen_exps(rng, dtype, B, n, V, _exp_lim(rng, n, V, kind))
     if kind in ("direct", "is"):
         case["M"] = rng.choice([1, 2, 2]) if nout <= 4 else 1
         if "pexp" in case and (V == 3 or n == 2):
@@ -1343,17 +1367,9 @@ def gen_est_extreme(rng, kind=None):
             if case["alias"] == "diff":
                 case["qtheta"] = _gen_theta(rng, dtype, B, n, V)
                 if rng.random() < 0.7:
-                    case["qexp"] = _gen_exps(rng, dtype, B, n, V, _exp_lim(rng, n, V))
+                    case["qexp"] = _gen_exps(rng, dtype, B, n, V, _exp_lim(rng, n, V, kind))
                     if V == 3 or n == 2:
                         case["M"] = 1
-                if case["self_norm"] and n == 1 and V == 2 and rng.random() < 0.6:
-                    # log-weights of the two outcomes more than 745 nats apart (exp of the difference underflows to 0):
-                    # p ~ 1 - 2^-e against q ~ 2^-e' gives log p/q = +e' ln 2 on outcome 1 and -e ln 2 on outcome 0
-                    sg = rng.choice([1, -1])
-                    wrap = (lambda e: [e]) if dtype == "bern" else (lambda e: [[e, 0]])
-                    case["pexp"] = [wrap(sg * rng.randint(540, 600)) for _ in range(B)]
-                    case["qexp"] = [wrap(-sg * rng.randint(540, 600)) for _ in range(B)]
-                    case["M"] = 2
             else:
                 case["qtheta"] = case["theta"]
                 if "pexp" in case:
@@ -1812,7 +1828,7 @@ def gen_cases(chk):
         c["stream"] = "grid"
         cases.append(c)
     # extreme-magnitude regime (drawn after every older stream, so those keep their cases for a given seed)
-    n_xest, n_xdist = (60, 30) if quick else (400, 250)
+    n_xest, n_xdist = (60, 20) if quick else (400, 200)
     for _ in range(n_xest):
         c = gen_est_extreme(rng)
         c["stream"] = "extreme"
@@ -1821,6 +1837,10 @@ def gen_cases(chk):
         c = gen_dist_extreme(rng)
         c["stream"] = "extreme"
         cases.append(c)
+    for i in range(2 if quick else 12):
+        c = gen_is_underflow(rng)
+        c["stream"] = "extreme"
+        cases.insert(i * 7, c)   # (their Coq terms are slow: spread over the first shards, which are scheduled first)
     return cases
 
 
@@ -1845,6 +1865,19 @@ def run(chk, cases=None):
         "torch.rand / rand_like / bernoulli and proposal.sample are replaced by scripted values (monkeypatching from the harness only)",
         "zero-probability outcomes are excluded (REINFORCE gradients are not unbiased on the boundary of the simplex)",
         "is_log=True is checked through exp(estimate) and its gradient against the linear-space model (no clamping regime)",
+        "extreme-magnitude regime (stream 'extreme'): is_log=True paths of Direct / ImportanceSampling / Enumerate / StraightThrough / "
+        "Reparameterization / Relax estimators are handed log-values log(table[b]) + fexp[b] ln 2 + lshift (lshift in {-1000, -300, "
+        "150, 700, 1000} +- 5, fexp up to +-620 octaves) and proposals/densities with logits = log-odds + e ln 2, |e| <= 600 octaves "
+        "(log-weights up to ~830 nats apart).  The model still receives exact rationals (table * 2^fexp, a 2^e / (a 2^e + 16 - a)); "
+        "the identity log E[exp(lf + c)] = log E[exp(lf)] + c is used to remove lshift (and one power of two per comparison) from "
+        "the returned log-estimate in float64 BEFORE exponentiating, so the oracle stays the exact linear-space model.  Tolerance "
+        "1e-8 relative to the comparison's unit (largest estimate over the sample tuples / the exact expectation): autograd's own "
+        "d log p = delta - p cancels to u64 |estimate| when p ~ 1.  DirectEstimator's documented clamp of log f - max log f to "
+        "[-43.7, 44.4] is not modelled: spreads inside one sample tuple stay below 18 nats there",
+        "relaxed distributions with logits of magnitude 8..500 (LogisticBernoulli) / class logits up to 1600 nats apart (Gumbel): the "
+        "model is fed the HARNESS's float64 log_softmax / sigmoid of the logits that were handed over, and the distribution's own "
+        "logits / probs are compared with them (1e-12 / 1e-9 relative); csample's closed form is compared only while eps-clamping of "
+        "probs is inactive and the 2^-64 fixed-point model keeps 1e-9 (1e-8 <= p <= 1 - 1e-8)",
     ]
     cases = cases if cases is not None else gen_cases(chk)
     evs, terms, where = [], [], []
